@@ -335,10 +335,10 @@ class Simulator(Computer, _mixins.CodeMixin):
                 new_branches.append(branch)
                 continue
 
-            if not is_instruction_resolved:
-                instruction._resolve_params(outcomes=branch.outcome)
-
             try:
+                if not is_instruction_resolved:
+                    instruction._resolve_params(outcomes=branch.outcome)
+
                 if self.config.validate:
                     instruction._validate(self._connector)
 
